@@ -1,4 +1,4 @@
-CONSTANTS PRE = 48 CUT = 64 NBH = 128 BUFSZ = 16384 THRESH = 16384 MINREAD = 512 FIXRA = TRUE FIXCR = FALSE
+CONSTANTS PRE = 48 CUT = 64 NBH = 128 BUFSZ = 16384 THRESH = 16384 MINREAD = 512 FIXRA = TRUE FIXCR = TRUE
 INIT Init
 NEXT Next
 CHECK_DEADLOCK FALSE
